@@ -48,17 +48,34 @@ func c15Class(name string) string {
 	return name
 }
 
+// c15CmpErrCode maps the text of an error of cmp Config.UnmarshalBinary to the code the model uses (coq/Model/Cbor.v)
 func c15CmpErrCode(e string) int {
+	paillierN := strings.Contains(e, "wrong number bit length of Paillier modulus N") || strings.Contains(e, "modulus N is even") || strings.Contains(e, "modulus N is nil")
+	party := strings.HasPrefix(e, "config: party")
 	switch {
+	case strings.HasPrefix(e, "config: malformed data"):
+		return 18
+	case e == "config: missing fields":
+		return 12
+	case strings.HasPrefix(e, "config: chain key:"):
+		return 14
+	case strings.HasPrefix(e, "config: rid:"):
+		return 13
 	case strings.Contains(e, "secret key is zero"):
 		return 2
 	case strings.Contains(e, "config: prime P"):
 		return 3
 	case strings.Contains(e, "config: prime Q"):
 		return 4
+	case strings.Contains(e, "primes P and Q are equal"):
+		return 15
+	case !party && paillierN:
+		return 16
 	case strings.Contains(e, "duplicate entry"):
 		return 6
-	case strings.Contains(e, "wrong number bit length of Paillier modulus N"), strings.Contains(e, "modulus N is even"), strings.Contains(e, "modulus N is nil"):
+	case party && strings.HasSuffix(e, ": missing fields"):
+		return 17
+	case party && paillierN:
 		return 7
 	case strings.Contains(e, "pedersen:"):
 		return 8
@@ -68,7 +85,7 @@ func c15CmpErrCode(e string) int {
 		return 10
 	case strings.Contains(e, "no public data"):
 		return 11
-	case strings.HasPrefix(e, "config: party"):
+	case party:
 		return 5
 	}
 	return 1
